@@ -168,7 +168,9 @@ Proof. unfold round_steps, tail_steps. rewrite create_steps_eq. reflexivity. Qed
 Lemma tail_no_new mfm C r : Forall no_new (tail_steps mfm C r).
 Proof.
   unfold tail_steps. rewrite write_steps_eq, commit_steps_eq.
-  repeat apply Forall_app; repeat split; try (apply setter_no_new; intros; exact I).
+  apply Forall_app; split; [apply setter_no_new; intros; exact I|].
+  apply Forall_app; split; [apply setter_no_new; intros; exact I|].
+  apply Forall_app; split; [apply setter_no_new; intros; exact I|].
   destruct mfm; [rewrite mf_steps_eq; apply setter_no_new; intros; exact I | constructor].
 Qed.
 
@@ -188,7 +190,7 @@ Proof.
     destruct He as [->|(x & Hx & ->)]; [constructor|].
     apply in_app_or in Hx as [Hx|[<-|[]]]; [|constructor].
     unfold tears_ok in T1. rewrite Forall_forall in T1.
-    destruct (T1 _ Hx) as [->|[->|->]]; constructor. }
+    destruct (T1 _ Hx) as [->|[->| ->]]; constructor. }
   (* phase 2 *)
   set (e1 := MkEntry (Some u0) (r_d0 r) None) in *.
   assert (E2 : eexec e1 (map SPay (r_writes r ++ [r_dfin r])) = MkEntry (Some u0) (r_dfin r) None).
@@ -205,7 +207,7 @@ Proof.
     destruct He as [->|(x & Hx & ->)]; [constructor|].
     apply in_app_or in Hx as [Hx|[<-|[]]]; [|apply sh_nomf].
     unfold tears_ok in T2. rewrite Forall_forall in T2.
-    destruct (T2 _ Hx) as [->|[->|->]]; try constructor. apply sh_nomf. }
+    destruct (T2 _ Hx) as [->|[->| ->]]; constructor. }
   set (e3 := MkEntry (Some u1) (r_dfin r) None) in *.
   split.
   - intros e He.
@@ -366,7 +368,7 @@ Qed.
 Lemma good_snoc mfm C r : good mfm C -> round_ok mfm C r -> good mfm (C ++ [final_file mfm C r]).
 Proof.
   intros Hg Hr. pose proof (final_chain mfm C r Hg Hr) as Hc.
-  destruct Hg as (_ & Hi & Hm). repeat split; auto.
+  destruct Hg as (_ & Hi & Hm). split; [exact Hc|]. split.
   - apply Forall_app; split; auto. constructor; auto. reflexivity.
   - intros Em. apply Forall_app; split; auto. constructor; auto. subst mfm.
     intros e He. simpl in He. injection He as <-. exists (r_mfid r). reflexivity.
@@ -385,7 +387,7 @@ Proof.
     destruct (exists_last Hne) as (l & x & E). rewrite E in Hf.
     pose proof (chain_last_max l x) as Hmax. rewrite <- E in Hmax.
     specialize (Hmax (co_links _ _ _ Hc)). rewrite E in Hmax. specialize (Hmax f Hf).
-    unfold n, fidx. simpl. unfold lastf. rewrite E, last_last. fold (fidx x). lia.
+    unfold n, fidx in *. simpl. unfold lastf. rewrite E, last_last. lia.
   - reflexivity.
   - exact Hm.
 Qed.
@@ -429,7 +431,7 @@ Lemma crash_cases_hold mfm rs : forall C n, good mfm C -> hist_ok mfm C rs ->
 Proof.
   induction rs as [|r rs IH]; intros C n Hg Hh.
   - unfold crash_state. simpl. rewrite firstn_nil. split; auto.
-  - destruct Hh as [Hr Hh]. unfold crash_state. simpl.
+  - destruct Hh as [Hr Hh]. unfold crash_state. cbn [expand committed_at next_committed_at].
     set (k := List.length (round_steps mfm C r)).
     destruct (Nat.leb_spec k n) as [Hle|Hlt].
     + rewrite firstn_app. fold k. rewrite firstn_all2 by (fold k; lia).
@@ -491,32 +493,579 @@ Theorem crash_committed_coherent mfm C rs n c : good mfm C -> hist_ok mfm C rs -
                coherent mfm false (committed_at mfm C rs n).
 Proof.
   intros Hg Hh Ho.
-  assert (Hco : coherent mfm false c).
-  { apply accept_iff. unfold open_dir in Ho.
-    destruct (opt_all (map file_of (crash_state mfm C rs n))) as [fs|]; [|discriminate].
-    pose proof Ho as Ho'. apply accept_chain in Ho' as [P Hc].
-    exists c. split; [apply Permutation_refl | exact Hc]. }
-  pose proof (crash_cases_hold mfm rs C n Hg Hh) as (Hk & _).
-  pose proof (good_nonempty _ _ Hk) as Hne.
-  assert (Hpre : exists drop, c = committed_at mfm C rs n ++ drop).
+  set (K := committed_at mfm C rs n) in *.
+  assert (Hacc : exists fs, open_check mfm false fs = Some c).
+  { unfold open_dir in Ho.
+    destruct (opt_all (map file_of (crash_state mfm C rs n))) as [fs|]; [eauto | discriminate]. }
+  destruct Hacc as (fs & Hacc). apply accept_chain in Hacc as [_ Hc].
+  assert (Hco : coherent mfm false c) by (exists c; split; [apply Permutation_refl | exact Hc]).
+  pose proof (crash_cases_hold mfm rs C n Hg Hh) as (Hk & Hcases). fold K in Hk, Hcases.
+  assert (Hpre : exists drop, c = K ++ drop).
   { destruct (crash_trichotomy mfm C rs n Hg Hh) as [E|[(f & E & Ef)|[E|E]]];
-      rewrite E in Ho; try discriminate; injection Ho as <-.
+      fold K in E; rewrite E in Ho; try discriminate; injection Ho as <-.
     - exists [f]. reflexivity.
     - exists []. rewrite app_nil_r. reflexivity.
-    - destruct (crash_cases_hold mfm rs C n Hg Hh) as (_ & [Es|(r & e & -> & _)]).
-      + (* state = committed: the next committed state is only reported when equal *)
-        rewrite Es, good_opens in E by assumption. injection E as E.
-        exists []. rewrite app_nil_r. symmetry. exact E.
-      + exists [final_file mfm (committed_at mfm C rs n) r]. reflexivity. }
+    - destruct Hcases as [Es|(r & e & -> & _)].
+      + rewrite Es, good_opens in E by assumption. injection E as <-.
+        exists []. rewrite app_nil_r. reflexivity.
+      + eexists. reflexivity. }
   destruct Hpre as (drop & ->). exists drop. split; [apply Permutation_refl|].
-  apply (prefix_ok mfm false _ (committed_at mfm C rs n) drop Hco); auto.
+  apply (prefix_ok mfm false (K ++ drop) K drop Hco).
   - apply Permutation_refl.
-  - destruct Hco as (c' & P & Hc').
-    pose proof (isort_of_chain c' _ (co_links _ _ _ Hc') P) as Es.
-    intros k d Hk' Hd.
-    assert (Hs : StronglySorted lt_f (committed_at mfm C rs n ++ drop)).
-    { apply accept_chain in Ho as [P2 Hc2]. apply linked_sorted, (co_links _ _ _ Hc2). }
-    eapply sorted_app_lt; eauto.
+  - eapply good_nonempty; eauto.
+  - intros k d Hk' Hd. eapply sorted_app_lt; eauto.
+    apply linked_sorted, (co_links _ _ _ Hc).
   - intros Em k Hk'. destruct Hk as (_ & _ & Hm). specialize (Hm Em).
     rewrite Forall_forall in Hm. auto.
+Qed.
+
+(** ** A. Bytes of the user block *)
+
+(** *** Torn writes in general *)
+
+Lemma torn_below k old new : firstn k new = firstn k old -> torn k old new = old.
+Proof. unfold torn. intros ->. apply firstn_skipn. Qed.
+
+Lemma firstn_lcp a : forall b k, k <= lcp a b -> firstn k a = firstn k b.
+Proof.
+  induction a as [|x a IH]; intros [|y b] k H; simpl in H.
+  - reflexivity.
+  - replace k with 0 by lia. reflexivity.
+  - replace k with 0 by lia. reflexivity.
+  - destruct (Ascii.eqb_spec x y) as [->|Hne].
+    + destruct k as [|k]; [reflexivity|]. simpl. f_equal. apply IH. lia.
+    + replace k with 0 by lia. reflexivity.
+Qed.
+
+(** Up to the end of the common prefix of both blocks nothing has changed. *)
+Theorem torn_le_lcp k old new : k <= lcp new old -> torn k old new = old.
+Proof. intros H. apply torn_below, firstn_lcp, H. Qed.
+
+Theorem torn_full k old new :
+  List.length new <= k -> torn k old new = new ++ skipn k old.
+Proof. intros H. unfold torn. rewrite firstn_all2 by exact H. reflexivity. Qed.
+
+Lemma beqb_eq a : forall b, beqb a b = true <-> a = b.
+Proof.
+  induction a as [|x a IH]; intros [|y b]; simpl; try (split; [discriminate | discriminate]).
+  - split; reflexivity.
+  - rewrite andb_true_iff, IH, Ascii.eqb_eq. split; [intros [-> ->]; reflexivity|].
+    intros [= -> ->]. auto.
+Qed.
+
+(** *** The scan *)
+
+Lemma scan_app s a : forall b,
+  scan s (a ++ b) = match scan s a with Some s' => scan s' b | None => None end.
+Proof.
+  revert s. induction a as [|c a IH]; intros s b; simpl; [reflexivity|].
+  destruct (sstep s c); [apply IH | reflexivity].
+Qed.
+
+Lemma plainb_spec c : plainb c = true ->
+  (c =? quote)%char = false /\ (c =? "\")%char = false /\ c <> nul /\ c <> nl.
+Proof.
+  unfold plainb. rewrite negb_true_iff, !orb_false_iff. intros (((H1 & H2) & H3) & H4).
+  repeat split; auto; intros E; subst c.
+  - unfold nul in H3. rewrite Ascii.eqb_refl in H3. discriminate.
+  - unfold nl in H4. rewrite Ascii.eqb_refl in H4. discriminate.
+Qed.
+
+(** Inside a string literal plain characters change nothing. *)
+Lemma scan_plain d sk lk f h : forallb plainb h = true ->
+  scan (MkS d true false sk lk f) h = Some (MkS d true false sk lk f).
+Proof.
+  induction h as [|c h IH]; simpl; [reflexivity|].
+  rewrite andb_true_iff. intros [Hc Hh]. apply plainb_spec in Hc as (H1 & H2 & _).
+  unfold sstep. simpl. unfold quote in H1. rewrite H2, H1. apply IH, Hh.
+Qed.
+
+Lemma tightb_spec t : tightb t = true ->
+  forall j, j < List.length t -> json_nec (firstn j t) = false.
+Proof.
+  unfold tightb. rewrite forallb_forall. intros H j Hj.
+  apply negb_true_iff, H, in_seq. lia.
+Qed.
+
+(** *** The block reader on a block with the standard head *)
+
+Lemma In_firstn {X : Type} (x : X) n : forall l, In x (firstn n l) -> In x l.
+Proof.
+  induction n as [|n IH]; intros [|a l]; simpl; try tauto.
+  intros [->|H]; auto.
+Qed.
+
+Lemma In_skipn {X : Type} (x : X) n : forall l, In x (skipn n l) -> In x l.
+Proof.
+  induction n as [|n IH]; intros [|a l]; simpl; try tauto.
+  intros H. right. apply IH, H.
+Qed.
+
+Lemma split_nl_no_nl r : ~ In nl r -> split_nl r = (r, []).
+Proof.
+  induction r as [|c r IH]; simpl; [reflexivity|]. intros H.
+  destruct (Ascii.eqb_spec c nl) as [->|Hne]; [exfalso; apply H; auto|].
+  rewrite IH by (intros Hin; apply H; auto). reflexivity.
+Qed.
+
+Lemma split_nl_app_nl a b : ~ In nl a ->
+  split_nl (a ++ nl :: b) = (a, fst (split_nl b) :: snd (split_nl b)).
+Proof.
+  induction a as [|c a IH]; simpl; intros H.
+  - try rewrite Ascii.eqb_refl. reflexivity.
+  - destruct (Ascii.eqb_spec c nl) as [->|Hne]; [exfalso; apply H; auto|].
+    rewrite IH by (intros Hin; apply H; auto). reflexivity.
+Qed.
+
+Lemma head1024_length : List.length head1024 = 13.
+Proof. reflexivity. Qed.
+
+Lemma lines_head r : ~ In nl r -> lines (head1024 ++ r) = [magic; B "1024"; r].
+Proof.
+  intros H. change (head1024 ++ r) with (magic ++ nl :: (B "1024" ++ nl :: r)).
+  unfold lines. rewrite split_nl_app_nl.
+  2:{ intros Hin. vm_compute in Hin. intuition discriminate. }
+  rewrite split_nl_app_nl.
+  2:{ intros Hin. vm_compute in Hin. intuition discriminate. }
+  rewrite split_nl_no_nl by exact H. reflexivity.
+Qed.
+
+Lemma firstn_head n r : 13 <= n -> firstn n (head1024 ++ r) = head1024 ++ firstn (n - 13) r.
+Proof.
+  intros H. rewrite firstn_app, head1024_length.
+  rewrite firstn_all2 by (rewrite head1024_length; exact H). reflexivity.
+Qed.
+
+Lemma read_head_shape r n : 13 <= n -> ~ In nl r ->
+  read_head (head1024 ++ r) n = Some (1024%N, upto_nul (firstn (n - 13) r)).
+Proof.
+  intros Hn Hr. unfold read_head. rewrite firstn_head by exact Hn.
+  rewrite lines_head by (intros Hin; apply Hr; eapply In_firstn; eauto).
+  reflexivity.
+Qed.
+
+Lemma block_text_head r : ~ In nl r ->
+  block_text (head1024 ++ r) = Some (upto_nul (firstn 1011 r)).
+Proof.
+  intros Hr. unfold block_text. rewrite read_head_shape by (auto; lia).
+  change (512 <? 1024)%N with true. cbv iota.
+  change (N.to_nat 1024) with 1024.
+  rewrite read_head_shape by (auto; lia). reflexivity.
+Qed.
+
+Lemma cut_nul_app t rest : ~ In nul t -> cut_nul (t ++ nul :: rest) = Some t.
+Proof.
+  induction t as [|c t IH]; simpl; intros H.
+  - reflexivity.
+  - destruct (Ascii.eqb_spec c nul) as [->|Hne]; [exfalso; apply H; auto|].
+    rewrite IH by (intros Hin; apply H; auto). reflexivity.
+Qed.
+
+(** The text of a block [head ++ t ++ NUL ++ rest]. *)
+Lemma block_text_data t rest :
+  ~ In nl t -> ~ In nul t -> ~ In nl rest -> List.length t < 1011 ->
+  block_text (head1024 ++ t ++ nul :: rest) = Some t.
+Proof.
+  intros H1 H2 H3 H4. rewrite block_text_head.
+  2:{ intros Hin. apply in_app_or in Hin as [Hin|[Hin|Hin]]; auto. discriminate. }
+  f_equal. rewrite firstn_app, firstn_all2 by lia.
+  destruct (1011 - List.length t) as [|q] eqn:E; [lia|]. simpl firstn.
+  unfold upto_nul. rewrite cut_nul_app by exact H2. reflexivity.
+Qed.
+
+Lemma skipn_repeat {X : Type} (x : X) a : forall m, skipn a (repeat x m) = repeat x (m - a).
+Proof.
+  induction a as [|a IH]; intros [|m]; simpl; try reflexivity. apply IH.
+Qed.
+
+Lemma In_repeat_nul x q : In x (repeat nul q) -> x = nul.
+Proof. intros H. apply repeat_spec in H. exact H. Qed.
+
+Lemma no_nl_repeat q : ~ In nl (repeat nul q).
+Proof. intros H. apply In_repeat_nul in H. discriminate. Qed.
+
+Lemma forallb_plain_no h : forallb plainb h = true -> ~ In nl h /\ ~ In nul h.
+Proof.
+  rewrite forallb_forall. intros H. split; intros Hin; apply H, plainb_spec in Hin;
+    destruct Hin as (_ & _ & Ha & Hb); congruence.
+Qed.
+
+(** *** Rejected tails: the rest of the old text after an unfinished hash value *)
+
+Lemma tail_reject d j : 1 <= j -> j <= 19 ->
+  accepting (scan (MkS d true false true KColon false) (skipn j old_tail)) = false.
+Proof.
+  intros H1 H2.
+  do 20 (destruct j as [|j]; [try lia; try reflexivity|]). lia.
+Qed.
+
+Lemma skipn_app_2 {X : Type} (l : list X) : forall l' n,
+  skipn (List.length l + n) (l ++ l') = skipn n l'.
+Proof. induction l as [|a l IH]; intros l' n; simpl; auto. Qed.
+
+(** *** The two blocks of a commit *)
+
+Section Commit.
+  Variables (pre hsh rest : bytes) (m d : nat) (sk : bool).
+
+  Definition c_ot : bytes := pre ++ old_tail.
+  Definition c_nt : bytes := pre ++ quote :: hsh ++ rest.
+  Definition c_old : bytes := head1024 ++ c_ot ++ repeat nul m.
+  Definition c_new : bytes := head1024 ++ c_nt ++ [nul].
+
+  Hypothesis pre_nl : ~ In nl pre.
+  Hypothesis pre_nul : ~ In nul pre.
+  Hypothesis hsh_plain : forallb plainb hsh = true.
+  Hypothesis hsh_long : 19 <= List.length hsh.
+  Hypothesis rest_nl : ~ In nl rest.
+  Hypothesis rest_nul : ~ In nul rest.
+  Hypothesis fits : List.length c_nt < List.length c_ot + m.
+  Hypothesis short : List.length c_nt < 1011.
+  (** the common prefix ends just after a colon, outside any string literal *)
+  Hypothesis pre_state : scan st0 pre = Some (MkS d false false sk KColon false).
+  (** every strict prefix of the new text fails the necessary condition *)
+  Hypothesis nt_tight : tightb c_nt = true.
+
+  Let P := List.length pre.
+
+  Lemma c_ot_length : List.length c_ot = P + 20.
+  Proof. unfold c_ot. rewrite app_length. reflexivity. Qed.
+
+  Lemma c_nt_length : List.length c_nt = P + 1 + List.length hsh + List.length rest.
+  Proof. unfold c_nt. rewrite app_length. simpl. rewrite app_length. unfold P. lia. Qed.
+
+  Lemma c_nt_no : ~ In nl c_nt /\ ~ In nul c_nt.
+  Proof.
+    destruct (forallb_plain_no _ hsh_plain) as [H1 H2]. unfold c_nt.
+    split; intros Hin; apply in_app_or in Hin as [Hin|[Hin|Hin]]; auto; try discriminate;
+      apply in_app_or in Hin as [Hin|Hin]; auto.
+  Qed.
+
+  (** (1) up to the end of [pre] the block is the old one *)
+  Theorem commit_torn_old k : k <= 13 + P -> torn k c_old c_new = c_old.
+  Proof.
+    intros Hk. apply torn_below. unfold c_old, c_new, c_ot, c_nt.
+    rewrite <- !app_assoc. rewrite !(app_assoc head1024 pre).
+    rewrite !(firstn_app k (head1024 ++ pre)).
+    replace (k - List.length (head1024 ++ pre)) with 0
+      by (rewrite app_length, head1024_length; unfold P in Hk; lia).
+    reflexivity.
+  Qed.
+
+  Lemma old_skip j : P + 20 <= j ->
+    skipn (13 + j) c_old = repeat nul (m - (j - (P + 20))).
+  Proof.
+    intros Hj. unfold c_old. rewrite skipn_app, head1024_length.
+    rewrite (skipn_all2 head1024) by (rewrite head1024_length; lia). simpl app.
+    rewrite skipn_app, c_ot_length, skipn_all2 by (rewrite c_ot_length; lia). simpl app.
+    rewrite skipn_repeat. f_equal. lia.
+  Qed.
+
+  (** (2) inside the old value and what follows it: an unterminated or mis-followed
+      string literal *)
+  Lemma c_new_split : c_new = (head1024 ++ pre) ++ quote :: hsh ++ rest ++ [nul].
+  Proof.
+    unfold c_new, c_nt. repeat rewrite <- app_assoc.
+    rewrite <- app_comm_cons. repeat rewrite <- app_assoc. reflexivity.
+  Qed.
+
+  Lemma c_old_split : c_old = (head1024 ++ pre) ++ old_tail ++ repeat nul m.
+  Proof. unfold c_old, c_ot. repeat rewrite <- app_assoc. reflexivity. Qed.
+
+  Lemma hp_length : List.length (head1024 ++ pre) = 13 + P.
+  Proof. rewrite app_length, head1024_length. reflexivity. Qed.
+
+  Lemma m_pos : 1 <= m.
+  Proof. rewrite c_nt_length, c_ot_length in fits. lia. Qed.
+
+  Lemma torn_between_eq j : j <= 18 ->
+    torn (13 + P + S j) c_old c_new =
+    head1024 ++ (pre ++ quote :: firstn j hsh ++ skipn (S j) old_tail)
+    ++ nul :: repeat nul (m - 1).
+  Proof.
+    intros Hj. unfold torn. rewrite c_new_split, c_old_split, <- hp_length.
+    rewrite firstn_app_2, skipn_app_2.
+    rewrite firstn_cons, firstn_app.
+    replace (j - List.length hsh) with 0 by lia. rewrite firstn_O, app_nil_r.
+    rewrite skipn_app. change (List.length old_tail) with 20.
+    replace (S j - 20) with 0 by lia. rewrite skipn_O.
+    pose proof m_pos as Hm. destruct m as [|m']; [lia|].
+    simpl repeat. rewrite Nat.sub_0_r. repeat rewrite <- app_assoc.
+    repeat rewrite <- app_comm_cons. repeat rewrite <- app_assoc. reflexivity.
+  Qed.
+
+  Theorem commit_torn_between k : 13 + P < k -> k < 13 + P + 20 ->
+    exists t, block_text (torn k c_old c_new) = Some t /\ json_nec t = false.
+  Proof.
+    intros H1 H2.
+    assert (Ek : exists j, j <= 18 /\ k = 13 + P + S j) by (exists (k - 14 - P); lia).
+    destruct Ek as (j & Hj & ->).
+    exists (pre ++ quote :: firstn j hsh ++ skipn (S j) old_tail).
+    destruct (forallb_plain_no _ hsh_plain) as [Hh1 Hh2].
+    split.
+    - rewrite torn_between_eq by exact Hj. apply block_text_data.
+      + intros Hin. apply in_app_or in Hin as [Hin|[Hin|Hin]]; auto; try discriminate.
+        apply in_app_or in Hin as [Hin|Hin]; [apply Hh1; eapply In_firstn; eauto|].
+        apply In_skipn in Hin. vm_compute in Hin. intuition discriminate.
+      + intros Hin. apply in_app_or in Hin as [Hin|[Hin|Hin]]; auto; try discriminate.
+        apply in_app_or in Hin as [Hin|Hin]; [apply Hh2; eapply In_firstn; eauto|].
+        apply In_skipn in Hin. vm_compute in Hin. intuition discriminate.
+      + apply no_nl_repeat.
+      + assert (L1 : List.length (firstn j hsh) <= j) by apply firstn_le_length.
+        assert (L2 : List.length (skipn (S j) old_tail) = 20 - S j)
+          by (rewrite skipn_length; reflexivity).
+        rewrite app_length.
+        change (List.length (quote :: firstn j hsh ++ skipn (S j) old_tail))
+          with (S (List.length (firstn j hsh ++ skipn (S j) old_tail))).
+        rewrite app_length, L2. pose proof short as Hs. rewrite c_nt_length in Hs.
+        fold P. lia.
+    - unfold json_nec. rewrite scan_app, pre_state.
+      change (scan (MkS d false false sk KColon false)
+                   (quote :: firstn j hsh ++ skipn (S j) old_tail))
+        with (scan (MkS d true false true KColon false) (firstn j hsh ++ skipn (S j) old_tail)).
+      rewrite scan_app, scan_plain.
+      2:{ apply forallb_forall. intros x Hx. apply In_firstn in Hx.
+          rewrite forallb_forall in hsh_plain. auto. }
+      apply tail_reject; lia.
+  Qed.
+
+  (** (3) beyond the old text: a strict prefix of the new text, then padding *)
+  Theorem commit_torn_beyond k : 13 + P + 20 <= k -> k < 13 + List.length c_nt ->
+    block_text (torn k c_old c_new) = Some (firstn (k - 13) c_nt) /\
+    json_nec (firstn (k - 13) c_nt) = false.
+  Proof.
+    intros H1 H2. destruct c_nt_no as [Hn1 Hn2]. split.
+    - assert (Et : torn k c_old c_new =
+                   head1024 ++ firstn (k - 13) c_nt
+                   ++ nul :: repeat nul (m - (k - 13 - (P + 20)) - 1)).
+      { unfold torn. replace k with (13 + (k - 13)) at 2 by lia.
+        rewrite old_skip by lia.
+        destruct (m - (k - 13 - (P + 20))) as [|q] eqn:E;
+          [rewrite c_ot_length in fits; lia|].
+        simpl repeat. rewrite Nat.sub_0_r. unfold c_new.
+        rewrite firstn_app, head1024_length, firstn_all2 by (rewrite head1024_length; lia).
+        rewrite firstn_app. replace (k - 13 - List.length c_nt) with 0 by lia.
+        rewrite firstn_O, app_nil_r, <- app_assoc. reflexivity. }
+      rewrite Et. apply block_text_data.
+      + intros Hin. apply Hn1. eapply In_firstn; eauto.
+      + intros Hin. apply Hn2. eapply In_firstn; eauto.
+      + apply no_nl_repeat.
+      + rewrite firstn_length. lia.
+    - apply tightb_spec; [exact nt_tight | lia].
+  Qed.
+
+  (** (4) once the whole new text is there it is the block of the completed write *)
+  Theorem commit_torn_new k : 13 + List.length c_nt <= k ->
+    block_text (torn k c_old c_new) = Some c_nt.
+  Proof.
+    intros H1. destruct c_nt_no as [Hn1 Hn2].
+    assert (Hlen : P + 20 <= List.length c_nt) by (rewrite c_nt_length; lia).
+    assert (Et : exists q, torn k c_old c_new = head1024 ++ c_nt ++ nul :: repeat nul q).
+    { unfold torn. destruct (Nat.eq_dec k (13 + List.length c_nt)) as [->|Hne].
+      - rewrite old_skip by lia.
+        destruct (m - (List.length c_nt - (P + 20))) as [|q] eqn:E;
+          [rewrite c_ot_length in fits; lia|].
+        exists q. unfold c_new. rewrite app_assoc, firstn_app.
+        rewrite firstn_all2 by (rewrite app_length, head1024_length; lia).
+        replace (13 + List.length c_nt - List.length (head1024 ++ c_nt)) with 0
+          by (rewrite app_length, head1024_length; lia).
+        rewrite firstn_O, app_nil_r, <- app_assoc. reflexivity.
+      - assert (Es : skipn k c_old = repeat nul (m - (k - 13 - (P + 20)))).
+        { rewrite <- (old_skip (k - 13)) by lia. f_equal. lia. }
+        rewrite Es. exists (m - (k - 13 - (P + 20))).
+        rewrite firstn_all2.
+        2:{ unfold c_new. rewrite !app_length, head1024_length. simpl. lia. }
+        unfold c_new. rewrite <- !app_assoc. reflexivity. }
+    destruct Et as (q & ->). apply block_text_data; auto. apply no_nl_repeat.
+  Qed.
+
+  (** *** With the loader *)
+
+  Variable loads : bytes -> option ublock.
+  Hypothesis loads_nec : forall t u, loads t = Some u -> json_nec t = true.
+
+  Definition parse_block (b : bytes) : option ublock :=
+    match block_text b with Some t => loads t | None => None end.
+
+  Lemma loads_rejects t : json_nec t = false -> loads t = None.
+  Proof.
+    intros H. destruct (loads t) as [u|] eqn:E; [|reflexivity].
+    apply loads_nec in E. congruence.
+  Qed.
+
+  (** Every torn state of the commit's user-block write loads as the old block, as the
+      new block, or not at all; the boundaries are the end of the common prefix and the end
+      of the new text. *)
+  Theorem commit_torn_classes k u1 : loads c_nt = Some u1 ->
+    (k <= 13 + P -> parse_block (torn k c_old c_new) = parse_block c_old) /\
+    (13 + P < k -> k < 13 + List.length c_nt -> parse_block (torn k c_old c_new) = None) /\
+    (13 + List.length c_nt <= k -> parse_block (torn k c_old c_new) = Some u1).
+  Proof.
+    intros Hl. split; [|split].
+    - intros Hk. rewrite commit_torn_old by exact Hk. reflexivity.
+    - intros H1 H2. unfold parse_block.
+      destruct (Nat.lt_ge_cases k (13 + P + 20)) as [Hlt|Hge].
+      + destruct (commit_torn_between k H1 Hlt) as (t & -> & Ht). apply loads_rejects, Ht.
+      + destruct (commit_torn_beyond k Hge H2) as (-> & Ht). apply loads_rejects, Ht.
+    - intros Hk. unfold parse_block. rewrite commit_torn_new by exact Hk. exact Hl.
+  Qed.
+
+  Theorem commit_tears_ok u1 : loads c_nt = Some u1 ->
+    tears_ok (parse_block c_old) u1 (tears_of parse_block c_old c_new).
+  Proof.
+    intros Hl. unfold tears_ok, tears_of. rewrite Forall_forall. intros x Hx.
+    apply in_map_iff in Hx as (k & <- & _).
+    destruct (commit_torn_classes k u1 Hl) as (C1 & C2 & C3).
+    destruct (Nat.le_gt_cases k (13 + P)) as [H1|H1]; [left; auto|].
+    destruct (Nat.lt_ge_cases k (13 + List.length c_nt)) as [H2|H2]; [right; left; auto|].
+    right; right; auto.
+  Qed.
+End Commit.
+
+(** *** The executable classification is sound for any loader *)
+
+Section Classify.
+  Variable loads : bytes -> option ublock.
+  Hypothesis loads_nec : forall t u, loads t = Some u -> json_nec t = true.
+
+  Local Notation parse := (parse_block loads).
+
+  Theorem classify_sound k old new :
+    match classify k old new with
+    | TOld => parse (torn k old new) = parse old
+    | TNew => parse (torn k old new) = parse (torn (List.length new) old new)
+    | TBad => parse (torn k old new) = None
+    | TUnknown => True
+    end.
+  Proof.
+    unfold classify.
+    destruct (beqb (torn k old new) old) eqn:E1.
+    { apply beqb_eq in E1. rewrite E1. reflexivity. }
+    unfold parse_block.
+    destruct (block_text (torn k old new)) as [t|] eqn:Et.
+    - destruct (obeqb (Some t) (block_text (torn (List.length new) old new))) eqn:E2.
+      + destruct (block_text (torn (List.length new) old new)) as [t'|]; [|discriminate].
+        simpl in E2. apply beqb_eq in E2. subst t'. reflexivity.
+      + unfold block_nec. rewrite Et. destruct (json_nec t) eqn:En; [exact I|].
+        destruct (loads t) as [u|] eqn:El; [|reflexivity].
+        apply loads_nec in El. congruence.
+    - unfold block_nec. rewrite Et. reflexivity.
+  Qed.
+End Classify.
+
+(** *** The first write of a user block (over the zeroed block of a new container) *)
+
+Lemma firstn_repeat {X : Type} (x : X) a : forall m, firstn a (repeat x m) = repeat x (min a m).
+Proof. induction a as [|a IH]; intros [|m]; simpl; try reflexivity. f_equal. apply IH. Qed.
+
+Lemma lines_no_nl r : ~ In nl r -> lines r = [r].
+Proof. intros H. unfold lines. rewrite split_nl_no_nl by exact H. reflexivity. Qed.
+
+Lemma read_head_short k q n : k <= 12 ->
+  read_head (firstn k head1024 ++ repeat nul q) n = None.
+Proof.
+  intros Hk. unfold read_head.
+  assert (E : exists a q', firstn n (firstn k head1024 ++ repeat nul q)
+                           = firstn a head1024 ++ repeat nul q' /\ a <= 12).
+  { rewrite firstn_app, firstn_firstn, firstn_repeat.
+    exists (min n k). eexists. split; [reflexivity | lia]. }
+  destruct E as (a & q' & -> & Ha).
+  pose proof (no_nl_repeat q') as Hz.
+  do 8 (destruct a as [|a];
+        [simpl firstn; rewrite lines_no_nl;
+         [reflexivity | intros Hin; simpl in Hin; intuition discriminate]|]).
+  change (firstn (S (S (S (S (S (S (S (S a)))))))) head1024)
+    with (magic ++ nl :: firstn a (B "1024" ++ [nl])).
+  assert (Hno : ~ In nl (firstn a (B "1024" ++ [nl]))).
+  { do 5 (destruct a as [|a]; [intros Hin; vm_compute in Hin; intuition discriminate|]). lia. }
+  unfold lines. rewrite <- app_assoc, <- app_comm_cons, split_nl_app_nl
+    by (intros Hin; vm_compute in Hin; intuition discriminate).
+  rewrite split_nl_no_nl; [reflexivity|].
+  intros Hin. apply in_app_or in Hin as [Hin|Hin]; auto.
+Qed.
+
+Section Create.
+  Variables (t : bytes) (M : nat).
+  Definition z_old : bytes := repeat nul M.
+  Definition z_new : bytes := head1024 ++ t ++ [nul].
+
+  Hypothesis t_nl : ~ In nl t.
+  Hypothesis t_nul : ~ In nul t.
+  Hypothesis t_short : List.length t < 1011.
+  Hypothesis t_fits : 13 + List.length t < M.
+  Hypothesis t_tight : tightb t = true.
+
+  Theorem create_torn_none k : k < 13 + List.length t ->
+    match block_text (torn k z_old z_new) with Some x => json_nec x = false | None => True end.
+  Proof.
+    intros Hk. unfold torn, z_old, z_new. rewrite skipn_repeat.
+    destruct (Nat.le_gt_cases k 12) as [H12|H12].
+    - rewrite firstn_app, head1024_length. replace (k - 13) with 0 by lia.
+      rewrite firstn_O, app_nil_r. unfold block_text.
+      rewrite read_head_short by exact H12. exact I.
+    - rewrite firstn_app, head1024_length, firstn_all2 by (rewrite head1024_length; lia).
+      rewrite firstn_app. replace (k - 13 - List.length t) with 0 by lia.
+      rewrite firstn_O, app_nil_r.
+      destruct (M - k) as [|q] eqn:E; [lia|]. simpl repeat. rewrite <- app_assoc.
+      rewrite block_text_data.
+      + apply tightb_spec; [exact t_tight | lia].
+      + intros Hin. apply t_nl. eapply In_firstn; eauto.
+      + intros Hin. apply t_nul. eapply In_firstn; eauto.
+      + apply no_nl_repeat.
+      + rewrite firstn_length. lia.
+  Qed.
+
+  Theorem create_torn_new k : 13 + List.length t <= k -> block_text (torn k z_old z_new) = Some t.
+  Proof.
+    intros Hk. unfold torn, z_old, z_new. rewrite skipn_repeat.
+    destruct (Nat.eq_dec k (13 + List.length t)) as [->|Hne].
+    - rewrite app_assoc, firstn_app.
+      rewrite firstn_all2 by (rewrite app_length, head1024_length; lia).
+      replace (13 + List.length t - List.length (head1024 ++ t)) with 0
+        by (rewrite app_length, head1024_length; lia).
+      rewrite firstn_O, app_nil_r, <- app_assoc.
+      destruct (M - (13 + List.length t)) as [|q] eqn:E; [lia|]. simpl repeat.
+      apply block_text_data; auto. apply no_nl_repeat.
+    - rewrite firstn_all2 by (rewrite !app_length, head1024_length; simpl; lia).
+      rewrite <- !app_assoc. apply block_text_data; auto. apply no_nl_repeat.
+  Qed.
+
+  Variable loads : bytes -> option ublock.
+  Hypothesis loads_nec : forall x u, loads x = Some u -> json_nec x = true.
+
+  Theorem create_tears_ok u0 : loads t = Some u0 ->
+    tears_ok None u0 (tears_of (parse_block loads) z_old z_new).
+  Proof.
+    intros Hl. unfold tears_ok, tears_of. rewrite Forall_forall. intros x Hx.
+    apply in_map_iff in Hx as (k & <- & _). unfold parse_block.
+    destruct (Nat.lt_ge_cases k (13 + List.length t)) as [H|H].
+    - left. pose proof (create_torn_none k H) as Hn.
+      destruct (block_text (torn k z_old z_new)) as [x|]; [|reflexivity].
+      destruct (loads x) as [u|] eqn:E; [|reflexivity]. apply loads_nec in E. congruence.
+    - right; right. rewrite create_torn_new by exact H. exact Hl.
+  Qed.
+End Create.
+
+(** The tear lists of a round taken from the bytes satisfy the side condition of the
+    directory-level theorems. *)
+Theorem round_tears_from_bytes mfm C r pre hsh rest m d sk t M loads :
+  ~ In nl pre -> ~ In nul pre -> forallb plainb hsh = true -> 19 <= List.length hsh ->
+  ~ In nl rest -> ~ In nul rest ->
+  List.length (c_nt pre hsh rest) < List.length (c_ot pre) + m ->
+  List.length (c_nt pre hsh rest) < 1011 ->
+  scan st0 pre = Some (MkS d false false sk KColon false) ->
+  tightb (c_nt pre hsh rest) = true ->
+  ~ In nl t -> ~ In nul t -> List.length t < 1011 -> 13 + List.length t < M -> tightb t = true ->
+  (forall x u, loads x = Some u -> json_nec x = true) ->
+  loads t = Some (round_u0 C r) ->
+  parse_block loads (c_old pre m) = Some (round_u0 C r) ->
+  loads (c_nt pre hsh rest) = Some (round_u1 mfm C r) ->
+  r_tears1 r = tears_of (parse_block loads) (z_old M) (z_new t) ->
+  r_tears2 r = tears_of (parse_block loads) (c_old pre m) (c_new pre hsh rest) ->
+  tears_ok None (round_u0 C r) (r_tears1 r) /\
+  tears_ok (Some (round_u0 C r)) (round_u1 mfm C r) (r_tears2 r).
+Proof.
+  intros H1 H2 H3 H4 H5 H6 H7 H8 H9 H10 G1 G2 G3 G4 G5 Hn L0 L1 L2 -> ->. split.
+  - apply create_tears_ok; auto.
+  - rewrite <- L1. eapply commit_tears_ok; eauto.
 Qed.
